@@ -177,6 +177,8 @@ impl FlatKind {
 pub enum InnerSpec {
   Cold(Vec<NoteSpec>),
   Hot(usize),
+  /// `interval(period)` on the world's scheduler (counted by the tap counter)
+  Ticker(u64),
 }
 
 /// script element (kept `Eq + Hash` friendly)
@@ -346,6 +348,11 @@ impl Pipe {
 
 impl Op1 {
   pub fn uses_time(&self) -> bool {
+    if let Op1::Flat(_, inners) = self {
+      if inners.iter().any(|i| matches!(i, InnerSpec::Ticker(_))) {
+        return true;
+      }
+    }
     matches!(
       self,
       Op1::Delay(_)
@@ -643,11 +650,12 @@ fn emit_script<O: Observer<V, E>>(mut o: O, script: &[NoteSpec]) {
 }
 
 macro_rules! inner_type {
-  ($name:ident, $subj:ty, $boxsub:ident, $boxty:ty $(, $send:ident)?) => {
+  ($name:ident, $subj:ty, $boxsub:ident, $boxty:ty, $sched:ty, $boxobs:ident $(, $send:ident)?) => {
     #[derive(Clone)]
     pub enum $name {
       Cold(Vec<NoteSpec>, Counters),
       Hot($subj, Counters),
+      Ticker(u64, $sched, Counters),
     }
     impl<O> Observable<V, E, O> for $name
     where
@@ -674,14 +682,28 @@ macro_rules! inner_type {
             let u = s.actual_subscribe(lo);
             $boxsub::new(LiveSub { u, live: c.inner_live.clone(), done })
           }
+          $name::Ticker(p, sched, c) => {
+            live_inc(&c);
+            let done = Arc::new(Mutex::new(false));
+            let lo = LiveObs { o, live: c.inner_live.clone(), done: done.clone() };
+            let taps = c.taps.clone();
+            let u = observable::interval(ticks(p), sched)
+              .map(V::from)
+              .on_error_map(inf::<E>)
+              .tap(move |_| {
+                taps.fetch_add(1, Ordering::SeqCst);
+              })
+              .actual_subscribe(rxrust::observer::$boxobs::new(lo));
+            $boxsub::new(LiveSub { u, live: c.inner_live.clone(), done })
+          }
         }
       }
     }
     impl ObservableExt<V, E> for $name {}
   };
 }
-inner_type!(InnerL, LSubj, BoxSubscription, BoxSubscription<'static>);
-inner_type!(InnerT, TSubj, BoxSubscriptionThreads, BoxSubscriptionThreads, Send);
+inner_type!(InnerL, LSubj, BoxSubscription, BoxSubscription<'static>, Gated, BoxObserver);
+inner_type!(InnerT, TSubj, BoxSubscriptionThreads, BoxSubscriptionThreads, GatedSend, BoxObserverThreads, Send);
 
 macro_rules! ident_m {
   ($($t:tt)*) => { $($t)* };
@@ -953,6 +975,10 @@ macro_rules! build_fns {
                 .map(|i| match i {
                   InnerSpec::Cold(s) => $Inner::Cold(s.clone(), c.clone()),
                   InnerSpec::Hot(i) => $Inner::Hot(cx.$hot[*i].clone(), c.clone()),
+                  InnerSpec::Ticker(p) => {
+                    let $cxs = cx;
+                    $Inner::Ticker(*p, $sched, c.clone())
+                  }
                 })
                 .collect();
               let pick = move |v: V| {
